@@ -1,6 +1,8 @@
 package ptt
 
 import (
+	"bytes"
+
 	"github.com/Ptt-official-app/go-pttbbs/cache"
 	"github.com/Ptt-official-app/go-pttbbs/cmsys"
 	"github.com/Ptt-official-app/go-pttbbs/ptttype"
@@ -72,6 +74,12 @@ func Recommend(
 	}
 	if (board.BrdAttr&ptttype.BRD_NORECOMMEND) != 0 || fhdr.Filename[0] == 'L' || ((fhdr.Filemode&ptttype.FILE_MARKED) != 0 && (fhdr.Filemode&ptttype.FILE_SOLVED) != 0) {
 		return nil, 0, ErrNotPermitted
+	}
+
+	// a comment is a single line: a line break in the text would append further,
+	// forged lines to the article.
+	if bytes.ContainsAny(content, "\n\r") {
+		return nil, 0, ErrInvalidParams
 	}
 
 	// put recommand
